@@ -469,7 +469,17 @@ func (f *FA) prepare() {
 				continue
 			}
 			k := f.LFOf(bo.Y)
-			if !k.isConst() || k.C <= 0 || k.C > 1<<16 {
+			if !k.isConst() {
+				// a divisor that is not a constant but is at least m >= 1 (a hash size): m*q <= a for a >= 0
+				if m, _ := f.bounds(k, nil); m >= 1 && m <= 1<<16 {
+					a := f.LFOf(bo.X)
+					if lo, _ := f.bounds(a, nil); lo >= 0 || isLenCall(bo.X) {
+						f.Inject(b, Fact{L: a.add(f.LFOf(bo), -m)})
+					}
+				}
+				continue
+			}
+			if k.C <= 0 || k.C > 1<<16 {
 				continue
 			}
 			a := f.LFOf(bo.X)
@@ -751,6 +761,14 @@ func (f *FA) lf0(v ssa.Value) LF {
 					lo = 0
 				}
 				return f.atomLF(k, name, lo, hi)
+			}
+			// a non-negative dividend over a divisor that is at least 1: between 0 and dividend / smallest divisor
+			if blo, _ := f.bounds(b, nil); blo >= 1 && alo >= 0 {
+				hi := ahi
+				if hi < INF {
+					hi = ahi / blo
+				}
+				return f.atomLF(k, name, 0, hi)
 			}
 		}
 		return f.atomLF(k, name, tlo, thi)
